@@ -22,6 +22,16 @@ def M64 : Nat := 18446744073709551616
 /-- Wrap to `uint64`. -/
 def u64 (x : Nat) : Nat := x % M64
 
+/-- Order-embedding key of the `float32` nearest to a small integer (exact for `|n| < 2^24`):
+    the IEEE-754 bit pattern of `|n|`, negated for negative `n`. -/
+def f32keyOfInt (n : Int) : Int :=
+  let a := n.natAbs
+  if a = 0 then 0 else
+    let e := Nat.log2 a
+    let mant := if e ≤ 23 then (a <<< (23 - e)) % 8388608 else (a >>> (e - 23)) % 8388608
+    let bits : Int := ((e + 127) * 8388608 + mant : Nat)
+    if n < 0 then -bits else bits
+
 theorem wrap8_id {x : Int} (h1 : -128 ≤ x) (h2 : x ≤ 127) : wrap8 x = x := by
   unfold wrap8; omega
 
